@@ -43,6 +43,9 @@ pub struct LifeCfg {
     pub o_order: bool,
     /// deviation script: horizon value pattern
     pub script: u8,
+    /// offer merge_regions on coded regions too; a push refused after such a merge is within the
+    /// region's acceptance contract (C06/C07) and ends the branch
+    pub coded_merges: bool,
     /// drop values containing non-finite floats (JSON cannot carry them: a limit of the text
     /// format C16 asks for, not of flatcontainer)
     pub finite_only: bool,
@@ -69,6 +72,7 @@ impl LifeCfg {
             o_model: false,
             o_order: false,
             script: 0,
+            coded_merges: false,
             finite_only: false,
         }
     }
@@ -101,6 +105,8 @@ pub struct LifeMachine<S: Spec> {
     twin: Option<Side<S>>,
     count: usize,
     m: S::M,
+    /// the region is a coded region built by merge_regions and not cleared since
+    coded_merged: bool,
     tags: Vec<String>,
 }
 
@@ -151,7 +157,7 @@ impl<S: Spec> LifeMachine<S> {
                 ops.push(OpDef::ReserveRegions { src });
             }
         }
-        if cfg.merge && e.coded == Coded::No {
+        if cfg.merge && (e.coded == Coded::No || cfg.coded_merges) {
             for srcs in 0..5u8 {
                 ops.push(OpDef::Merge { srcs });
             }
@@ -176,6 +182,7 @@ impl<S: Spec> LifeMachine<S> {
             twin,
             count: 0,
             m: Default::default(),
+            coded_merged: false,
             tags: vec![],
         }
     }
@@ -339,6 +346,10 @@ impl<S: Spec> LifeMachine<S> {
                 // more than usize::MAX zero-sized elements: resource exhaustion, not in the model
                 return Step::Refused(p);
             }
+            Err(p) if self.coded_merged => {
+                self.tags.push("refused:coded-after-merge".into());
+                return Step::Refused(p);
+            }
             Err(p) => return Step::Violation(format!("push({}) as {fname} panicked: {p}", S::show(&v))),
         };
         if self.cfg.o_dense && self.e.dense {
@@ -378,7 +389,9 @@ impl<S: Spec> LifeMachine<S> {
                 Ok(i) => i,
                 Err(p) => return Step::Violation(format!("push({}) on the twin region panicked: {p}", S::show(&v))),
             };
-            if idx_str(&tidx) != idx_str(&idx) {
+            // a coded region built by merge_regions stores items differently from a default one:
+            // only the reads are compared (C10: "within their acceptance contract")
+            if idx_str(&tidx) != idx_str(&idx) && !self.coded_merged {
                 return Step::Violation(format!(
                     "push({}) as {fname} returned index {} but {} on the twin ({})",
                     S::show(&v),
@@ -458,6 +471,7 @@ impl<S: Spec> Machine for LifeMachine<S> {
         self.twin = Self::initial_twin(&self.cfg);
         self.count = 0;
         self.m = Default::default();
+        self.coded_merged = false;
         self.tags.clear();
     }
     fn enabled(&self) -> Vec<OpId> {
@@ -504,6 +518,7 @@ impl<S: Spec> Machine for LifeMachine<S> {
                 }
                 self.a.issued.clear();
                 self.count = 0;
+                self.coded_merged = false;
                 S::m_clear(&mut self.m);
                 match self.cfg.twin {
                     Twin::FreshAtClear => self.twin = Some(Side { r: Default::default(), issued: vec![] }),
@@ -570,6 +585,7 @@ impl<S: Spec> Machine for LifeMachine<S> {
                     let nm = S::m_merged(&srcs_m);
                     self.m = nm;
                 }
+                self.coded_merged = self.e.coded != Coded::No;
                 match merged {
                     Ok(m) => self.a = Side { r: m, issued: vec![] },
                     Err(p) if self.e.zst && crate::engine::exhaustion(&p) => return Step::Refused(p),
